@@ -68,7 +68,18 @@ def cost_hint(cfg):
     base = {1: 1, 2: 10, 3: 400, 4: 8000}[n]
     if cfg.get("outlier_prior", 0) > 0:
         base *= 6
-    return base * (cfg["N"] - 1) ** 3
+    mv = cfg.get("move", "pg")
+    if mv in ("dp", "prg"):
+        return base / 10.0
+    if mv == "sweep":
+        base *= 20
+    return base * (cfg.get("N", 2) - 1) ** 3
+
+
+def config_id(cfg):
+    import hashlib
+
+    return hashlib.sha1(json.dumps(cfg, sort_keys=True).encode()).hexdigest()[:10]
 
 
 def family(cfg):
@@ -123,7 +134,7 @@ def run_configs(chk, cfgs, tol=TOL):
                 if states[worst] in r["witness"]:
                     wit = {"start": oracle.fmt_state(states[r["si"]]), "choices": r["witness"][states[worst]]}
                     break
-            chk.violation(fam, {"config": cfg, "residual": resid, "worst_state": oracle.fmt_state(states[worst]),
+            chk.violation(dict(fam, config_id=config_id(cfg), residual_1e7=int(round(resid * 1e7))), {"config": cfg, "residual": resid, "worst_state": oracle.fmt_state(states[worst]),
                                 "pi": pi[worst], "piP": out[worst], "executions": n_exec},
                           {"config": cfg, "witness_path_into_worst_state": wit})
         if len(chk.samples) < 4 and cfg["n"] >= 2:
